@@ -228,7 +228,14 @@ def correspond(ctx, scale):
     for levels in ([5, 4], [6, 3], [3, 3, 3]):
         for opt in (False, True):
             single.append(('latent' + ('-learned' if opt else ''), lambda levels=levels, opt=opt: LatentQuantize(levels=levels, dim=len(levels), optimize_values=opt), len(levels), 'cfirst', False))
-    for name, mk, dim, lay, exact in single:
+    # all-pairs option sets of FSQ and LFQ (vlib/zoo.py); with noise dropout the training output is deliberately not a code: evaluation mode only
+    from vlib import zoo
+    for kind in ('fsq', 'lfq'):
+        for zname, zc, zmk in zoo.class_configs(kind):
+            single.append((kind + ('-proj' if zc['proj'] else ''), zmk, zoo.zoo_dim(kind, zc), zc['layout'], not zc['proj'], ('eval',) if zc.get('noise') else ('eval', 'train')))
+    for ent in single:
+        name, mk, dim, lay, exact = ent[:5]
+        modes = ent[5] if len(ent) > 5 else ('eval', 'train')
         if not ctx.thorough and rng.random() < 0.4 and name in ('fsq', 'lfq'):
             continue
         try:
@@ -244,7 +251,7 @@ def correspond(ctx, scale):
                     p_.grad = torch.randn_like(p_) * 0.1
                 opt_.step()
                 opt_.zero_grad()
-        for mode in ('eval', 'train'):
+        for mode in modes:
             q.train(mode == 'train')
             x = torch.randn(*shapes(lay, dim, rng)) * rng.choice([0.5, 1.5])
             if mode == 'eval':
